@@ -59,6 +59,7 @@ package api
 //@ import "github.com/oasisprotocol/oasis-core/go/storage/mkvs"
 //@ ghost var GTreeW map[mkvs.KeyValueTree]int
 //@ ghost var GCommits int
+//@ ghost var GPublishes int
 //@ ghost func TreeOf(c *Context) mkvs.KeyValueTree { return c.state }
 //@ ghost func InTx(c *Context) bool { return c.isTransaction }
 //@ ghost func OnlyTree(t mkvs.KeyValueTree) bool { return forall u mkvs.KeyValueTree :: u != t ==> GTreeW[u] == old(GTreeW[u]) }
